@@ -667,6 +667,12 @@ class UnytDomain:
 
     def construct(self, it, ci, args, kwargs):
         """ClassName(...) for a class of the package"""
+        if "tuple" in ci.bases and len(args) == 1 and isinstance(args[0], tuple) and not kwargs \
+                and it.repo.find_method(ci, "__new__") is None and it.repo.find_method(ci, "__init__") is None:
+            # a plain tuple subclass used as a marker (e.g. _DerivedEntry): behaves as its tuple;
+            # the marker itself is ghost state (which rows were generated) recorded as an event
+            it.ctx.events.append(("marked-tuple", ci.name, args[0]))
+            return args[0]
         new = it.repo.find_method(ci, "__new__")
         init = it.repo.find_method(ci, "__init__")
         if new is not None:
@@ -828,6 +834,9 @@ class SuperProxy(SV):
 SUPER_ATTR = {}
 OBJ_ATTR = {}
 DEFAULT_INLINE = {
+    "unyt.unit_object._ImportCache.__init__",
+    "unyt.unit_object._ImportCache.ua",
+    "unyt.unit_object._ImportCache.uq",
     "unyt.unit_object.Unit.__new__",
     "unyt.unit_object.Unit.__rmul__",
     "unyt.unit_object.Unit.units",
